@@ -191,6 +191,20 @@ func runC13(c *core.Ctx) {
 			c.Violate("as-order/"+pr.goType, "As did not assign the first match in branch order", fmt.Sprintf("%s\ngot %p want %p", t, val, wantObj))
 		}
 	}
+	{
+		var tgt *gen.AsTarget
+		got := errors.As(e, &tgt)
+		want := ""
+		for _, l := range vis {
+			if x, ok := l.Err.(*gen.AsLeaf); ok {
+				want = x.Msg
+				break
+			}
+		}
+		if got != (want != "") || got && tgt.From != want {
+			c.Violate("as-order/custom-As-method", "As through a type's own As method does not use the first match in branch order", fmt.Sprintf("%s\ngot %v want from %q", t, got, want))
+		}
+	}
 	// %+v: one entry per layer, per-branch tokens present
 	var pv string
 	if p := core.Try(func() { pv = fmt.Sprintf("%+v", errors.Formattable(e)) }); p != nil {
